@@ -5,7 +5,7 @@ open Wz
 
 /-! ### entity tags -/
 
-def TagOk (x : Str) : Bool := !x.isEmpty && !x.contains '"' && !x.contains '\n'
+def TagOk (x : Str) : Bool := !x.contains '"' && !x.contains '\n'
 
 def etagItemText (it : Bool × Str) : Str :=
   (if it.1 then ['W', '/'] else []) ++ '"' :: (it.2 ++ ['"'])
@@ -39,7 +39,7 @@ theorem etagMatch_item (it : Bool × Str) (rest rest' : Str) (hok : TagOk it.2 =
     etagMatch (etagItemText it ++ rest) = some (it.1, some it.2, none, rest') := by
   obtain ⟨w, x⟩ := it
   simp only [TagOk, Bool.and_eq_true, Bool.not_eq_true'] at hok
-  obtain ⟨⟨_, hq⟩, hn⟩ := hok
+  obtain ⟨hq, hn⟩ := hok
   have hq' : '"' ∉ x := by simpa using hq
   have hn' : '\n' ∉ x := by simpa using hn
   have hb : etagBody ('"' :: (x ++ '"' :: rest)) = some (some x, none, rest') := by
@@ -72,11 +72,6 @@ def etagStrongs (items : List (Bool × Str)) : List (Option Str) :=
 def etagWeaks (items : List (Bool × Str)) : List (Option Str) :=
   (items.filter (fun it => it.1)).map (fun it => some it.2)
 
-theorem tagOk_ne_nil {x : Str} (h : TagOk x = true) : ∃ c t, x = c :: t := by
-  cases x with
-  | nil => simp [TagOk] at h
-  | cons c t => exact ⟨c, t, rfl⟩
-
 theorem parseEtagsGo_items (it : Bool × Str) (items : List (Bool × Str)) (fuel : Nat)
     (sacc wacc : List (Option Str))
     (hok : ∀ x ∈ it :: items, TagOk x.2 = true) (hf : items.length < fuel) :
@@ -90,13 +85,10 @@ theorem parseEtagsGo_items (it : Bool × Str) (items : List (Bool × Str)) (fuel
       obtain ⟨c, t, hct, _⟩ := etagItemText_head it
       have hm := etagMatch_item it [] [] (hok it (by simp)) etagTerm_nil
       simp only [List.append_nil] at hm
-      obtain ⟨c2, t2, hx⟩ := tagOk_ne_nil (hok it (by simp))
       have hne : (etagItemText it).isEmpty = false := by rw [hct]; rfl
       simp only [join, List.map_cons, List.map_nil, List.intercalate_singleton, parseEtagsGo, hne,
         Bool.false_eq_true, if_false, hm]
       obtain ⟨w, x⟩ := it
-      simp only at hx
-      subst hx
       cases f with
       | zero => cases w <;> simp [parseEtagsGo, etagStrongs, etagWeaks]
       | succ f' => cases w <;> simp [parseEtagsGo, etagStrongs, etagWeaks]
@@ -116,24 +108,21 @@ theorem parseEtagsGo_items (it : Bool × Str) (items : List (Bool × Str)) (fuel
         | cons z zs =>
           simp [join, List.intercalate_cons_cons, hct'] at hc; subst hc; exact hsp
       have hm := etagMatch_item it _ _ (hok it (by simp)) (etagTerm_sep _ hhead)
-      obtain ⟨c2, t2, hx⟩ := tagOk_ne_nil (hok it (by simp))
       have hne : (etagItemText it ++ (", ".toList ++ join ", " ((y :: ys).map etagItemText))).isEmpty = false := by
         rw [hct]; rfl
       rw [hj]
       simp only [parseEtagsGo, hne, Bool.false_eq_true, if_false, hm]
       obtain ⟨w, x⟩ := it
-      simp only at hx
-      subst hx
       have hok' : ∀ x ∈ y :: ys, TagOk x.2 = true := fun z hz => hok z (by simp at hz ⊢; right; exact hz)
       have hf' : ys.length < f := by simp at hf; omega
       cases w with
       | true =>
         simp only [if_true]
-        rw [ih y f sacc (some (c2 :: t2) :: wacc) hok' hf']
+        rw [ih y f sacc (some x :: wacc) hok' hf']
         simp [etagStrongs, etagWeaks]
       | false =>
         simp only [Bool.false_eq_true, if_false]
-        rw [ih y f (some (c2 :: t2) :: sacc) wacc hok' hf']
+        rw [ih y f (some x :: sacc) wacc hok' hf']
         simp [etagStrongs, etagWeaks]
 
 end Wz.Http
